@@ -62,6 +62,11 @@ def _cvc5(smt2, limit_s=None):
         os.unlink(fn)
 
 
+# conversions the encoding leaves uninterpreted although they preserve the value: a counter-model that separates conv(x) from x
+# says nothing about the code (sorted / set / reversed do change the value and are not listed)
+_VALUE_PRESERVING = {'conv_list', 'conv_tuple', 'conv_np_array', 'conv_np_asarray'}
+
+
 def _consts(t, out, seen, budget=20000):
     stack = [t]
     while stack and len(seen) < budget:
@@ -74,6 +79,8 @@ def _consts(t, out, seen, budget=20000):
             if x.num_args() == 0 and x.decl().kind() == z3.Z3_OP_UNINTERPRETED:
                 out[x.decl().name()] = x
             else:
+                if x.decl().kind() == z3.Z3_OP_UNINTERPRETED and x.decl().name() in _VALUE_PRESERVING:
+                    out['havoc_' + x.decl().name()] = x       # list(x) / tuple(x) / np.array(x): same elements, same order
                 stack.extend(x.children())
         elif z3.is_quantifier(x):
             stack.append(x.body())
